@@ -159,3 +159,64 @@ func VH_C19_document_Q() {
 	vKnown("D52", (attr && (ruleType || ruleClass)) || (styleAttr && attr && order == 0) || (ruleType && ruleClass && classFirst))
 	vAssert("C19.document.fill_cascade", fillA == want)
 }
+
+// C19-H6: stroke properties through whole documents: inheritance from a group, override on the
+// element, restoration for a sibling, and stroke-miterlimit with and without an explicit
+// stroke-linejoin (SVG 2 13.5: stroke, stroke-width, stroke-linejoin and stroke-miterlimit are
+// inherited properties; the initial join is miter with limit 4; stroke-miterlimit applies to miter
+// joins however the join was selected).  Numbers symbolic.
+func VH_C19_document_stroke_Q() {
+	vhC19Stubs()
+	w1 := vNondetDyadic(6, 2)
+	w2 := vNondetDyadic(6, 2)
+	lim := vNondetDyadic(6, 2)
+	vAssume(0.25 <= w1 && w1 <= 6 && 0.25 <= w2 && w2 <= 6 && 1 <= lim && lim <= 7 && w1 != w2 && lim != 4)
+	ownWidth := vChoose(0, 1) == 1 // the rect overrides the group's stroke-width
+	limit := vChoose(0, 2)          // 0: no stroke-miterlimit; 1: on the rect; 2: on the group
+	join := vChoose(0, 2)           // 0: no stroke-linejoin; 1: stroke-linejoin="miter" before the limit; 2: after it
+	doc := `<svg viewBox="` + vhC19Num(0) + " " + vhC19Num(0) + " " + vhC19Num(100) + " " + vhC19Num(50) + `" xmlns="http://www.w3.org/2000/svg">`
+	doc += `<g stroke="red" stroke-width="` + vhC19Num(w1) + `"`
+	if limit == 2 {
+		doc += ` stroke-miterlimit="` + vhC19Num(lim) + `"`
+	}
+	doc += `><rect x="` + vhC19Num(1) + `" y="` + vhC19Num(2) + `" width="` + vhC19Num(3) + `" height="` + vhC19Num(4) + `"`
+	if join == 1 {
+		doc += ` stroke-linejoin="miter"`
+	}
+	if limit == 1 {
+		doc += ` stroke-miterlimit="` + vhC19Num(lim) + `"`
+	}
+	if join == 2 {
+		doc += ` stroke-linejoin="miter"`
+	}
+	if ownWidth {
+		doc += ` stroke-width="` + vhC19Num(w2) + `"`
+	}
+	doc += `/></g><rect x="` + vhC19Num(10) + `" y="` + vhC19Num(2) + `" width="` + vhC19Num(3) + `" height="` + vhC19Num(4) + `"/></svg>`
+	c, err := ParseSVG(bytes.NewReader([]byte(doc)))
+	vAssert("C19.docstroke.parsed", err == nil && c != nil)
+	if err != nil || c == nil {
+		return
+	}
+	rec := &vhC15Rec{w: c.W, h: c.H}
+	c.RenderTo(rec)
+	vAssert("C19.docstroke.two_paths", len(rec.calls) == 2)
+	if len(rec.calls) != 2 {
+		return
+	}
+	a, b := rec.calls[0], rec.calls[1]
+	wantW := w1
+	if ownWidth {
+		wantW = w2
+	}
+	vAssert("C19.docstroke.inherited_paint", a.style.Stroke.Color == vhC19Red && a.style.HasStroke())
+	vAssert("C19.docstroke.width", vhC19Near(a.style.StrokeWidth, wantW))
+	mj, isMiter := a.style.StrokeJoiner.(MiterJoiner)
+	wantLim := 4.0
+	if limit != 0 {
+		wantLim = lim
+	}
+	vAssert("C19.docstroke.miter_join", isMiter)
+	vAssert("C19.docstroke.miterlimit", isMiter && vhC19Near(mj.Limit, wantLim))
+	vAssert("C19.docstroke.sibling_has_no_stroke", !b.style.HasStroke())
+}
